@@ -26,9 +26,9 @@ CLAIMED = {
           "Machine-checked proof of the invariant for every node of every tree of every forest, for all tables, id layouts, salts and parameters (hashes and noise uninterpreted, exact arithmetic), conditional on the modelled build finishing; the executable model reproduces the real trees bit for bit on every run.",
           "Conditional on the recursion budget (Python's recursion limit; known finding F10). Hull clause proved for rows not folded in as outliers; known finding: in >=2-dim trees rows beyond a column's final root range widen the tight range.",
           "DESIGN.md §5 C18"),
-  "C01": ("Lean 4 theorems: passing the filter needs >= low_threshold distinct entities per id column (both counter kinds); through the whole stateful harvest (cached sub-trees, refinement, in-place rescaling of shared bucket objects) every range of every returned bucket is the released range, for the same column, of a node of a forest tree that is a branch or a filter-passing leaf; such a node holds >= low_threshold entities whose non-folded rows have their values inside that range; safe strings only from singular filter-passing 1-dim leaves; verbatim strings only for safe indices + bit-exact correspondence of trees, harvest and microdata + every released range and verbatim string of real releases checked against the entities whose own values fall inside it",
+  "C01": ("Lean 4 theorems: passing the filter needs >= low_threshold distinct entities per id column (both counter kinds); through the whole stateful harvest (cached sub-trees, refinement, in-place rescaling of shared bucket objects) every range of every returned bucket is the released range, for the same column, of a node of a forest tree that is a branch or a filter-passing leaf; such a node holds >= low_threshold entities whose non-folded rows have their values inside that range; safe strings only from singular filter-passing 1-dim leaves; verbatim strings only for safe indices; the same for every string cell of a table assembled by build_table from any cluster plan + bit-exact correspondence of trees, harvest and microdata + every released range and verbatim string of real releases checked against the entities whose own values fall inside it",
           "Machine-checked proof of the floor for every bucket of every harvest of every forest tree (leaf, branch and refined buckets) and for every string cell generated from them, for all inputs over exact arithmetic with hashes and noise uninterpreted; model tied bit for bit; the floor is also evaluated on every real release.",
-          "Composed down to the cells of sample() for one cluster (C01_sample_strings: a string cell is a mask, the code of a single-point range released for that column by a releasable node, or a safe code of a filter-passing leaf); through stitching of several clusters only via the C12 stage theorems; low_threshold >= 0. Known finding F12: a rare string at the edge leaf with folded outliers is released verbatim.",
+          "Composed down to the cells of sample() for one cluster (C01_sample_strings: a string cell is a mask, the code of a single-point range released for that column by a releasable node, or a safe code of a filter-passing leaf); and through build_table for any cluster plan (C01_table_strings: stitching and patching move cells only under their own column); low_threshold >= 0. Known finding F12: a rare string at the edge leaf with folded outliers is released verbatim.",
           "DESIGN.md §5 C01"),
   "C10": ("Lean 4 theorems: the rescaling kernel sums to target or target-1 with non-negative counts; conservation through the whole harvest (for every well-shaped tree, hence every forest tree, and every RNG stream the buckets are none or add up to the root's released count or one less; as many ranges as columns) proved with ghost cell ownership, a frame by tree dimension and disjointness of sibling lists; harvest output positive; microdata emits one row per unit + bit-exact correspondence of _adjust_counts, harvest and generate_microdata + totals checked on every real bucket list",
           "Machine-checked proof of every clause for all inputs over exact arithmetic (low_threshold >= 0); executable model of bucket.py reproduces real bucket lists bit for bit (1-4 columns, refinement, recorded RNG).",
@@ -62,7 +62,7 @@ CLAIMED = {
           "Machine-checked invariant over all schedules of the process/file machine; the machine is tied to the real function by replaying generated schedules (threads, module-global interposition, real file system) and comparing per-process outcome and final file; the property is also evaluated directly on the real outcomes.",
           "File-system semantics (atomic no-overwrite link, private mkstemp names, loss of unflushed data) trusted. Secrecy clause: syntactic + byte scan only (partial).",
           "DESIGN.md §5 C06"),
-  "C07": ("Lean 4 theorems: well-formed plans cover every column once, the composed build_table returns exactly the plan's columns, the whole default-strategy synthesis in the model ends with a well-formed plan and exactly the input's columns; nulls only from the null range, strings are value-map entries or prefix*index, one row per unit; from the typed input table for one cluster: one cell per input column, each a null or a value of the column's type, strings input strings or masks (C07_synthesize_single_domains) + value-exact correspondence of the composed model of sample() (one cluster; all clusters with stitching; the default strategy with measures and plan search) with the real Synthesizer + sample() run on generated tables of every type under every strategy with schema/dtype/domain checks",
+  "C07": ("Lean 4 theorems: well-formed plans cover every column once, the composed build_table returns exactly the plan's columns, the whole default-strategy synthesis in the model ends with a well-formed plan and exactly the input's columns; nulls only from the null range, strings are value-map entries or prefix*index, one row per unit; from the typed input table for one cluster: one cell per input column, each a null or a value of the column's type, strings input strings or masks (C07_synthesize_single_domains), and the same for any cluster plan through build_table (C07_table_domains, C07_synthesize_plan_domains); schema of the default-strategy synthesis with sub-sampling (clustering/sampling.py inside the model: C07_sampleDefaultSampled_schema) + value-exact correspondence of the composed model of sample() (one cluster; all clusters with stitching; the default strategy with measures and plan search, with and without sub-sampling) with the real Synthesizer + sample() run on generated tables of every type under every strategy with schema/dtype/domain checks",
           "Proof of the schema and domain clauses of the composed model for all inputs; the composed model reproduces sample() value for value; pandas astype / scikit-learn are exercised end to end on every run. That the run completes is not a theorem.",
           "pandas/scikit-learn outside the model. Known findings: RecursionError for float values closer than ~2^-900 of the column range (F10); ValueError when a cluster's microtable is empty while the table so far is not (F14, found by the thorough tier).",
           "DESIGN.md §5 C07"),
@@ -70,7 +70,7 @@ CLAIMED = {
           "Machine-checked proof of the bounded/symmetric clauses for all inputs over exact arithmetic; measures.py modelled and compared bit for bit (log2 from the same libm); the statistical ranking clauses are NOT proved - they are evaluated on seeded tables and reported as support; gross deviations are reported as failures.",
           "Ranking clauses statistical (partial; known finding: one-to-one dependence can fall to ~0.56 for 5/8 categories). Entropy sign needs shares <= 1, not guaranteed under noise.",
           "DESIGN.md §5 C14"),
-  "C08": ("Lean 4 theorems: released count of N rows within 17*sd+1/2 of N, large groups pass, noise off => hard floor only, rescaling loses at most one unit, one row per unit, patch keeps the left count, every forest tree holds every row exactly once, and composed end to end for one cluster from the typed input table (convertor fitting, normalisation, forest, harvest, microdata): N-1-(17 sd+1/2) <= rows <= N+17 sd+1/2, empty only below low_threshold+(gap+8.5) layer_sd (C08_synthesize_single_rows; the traversal budgets see whole trees: SdxProofs/Height) + bit-exact correspondence of trees/harvest and of the composed one-cluster sample from the typed table (S-sampleRaw) + len(sample()) checked against the bound on generated tables and on sequences of syntheses under changing noise levels",
+  "C08": ("Lean 4 theorems: released count of N rows within 17*sd+1/2 of N, large groups pass, noise off => hard floor only, rescaling loses at most one unit, one row per unit, patch keeps the left count, every forest tree holds every row exactly once, and composed end to end for one cluster from the typed input table (convertor fitting, normalisation, forest, harvest, microdata): N-1-(17 sd+1/2) <= rows <= N+17 sd+1/2, empty only below low_threshold+(gap+8.5) layer_sd (C08_synthesize_single_rows; the traversal budgets see whole trees: SdxProofs/Height), and through build_table for per-column patching and left-owned stitching (C08_patched_table_rows, C08_synthesize_noClustering_rows from the typed table) + bit-exact correspondence of trees/harvest and of the composed one-cluster sample from the typed table (S-sampleRaw) + len(sample()) checked against the bound on generated tables and on sequences of syntheses under changing noise levels",
           "Machine-checked proof of the row-count clause as one theorem from the typed input table to the list of synthetic rows for one cluster (one non-null id per row, exact arithmetic, deviates bounded by 8.5); across clusters the chain is the stitching theorems (C12); evaluated on every real table.",
           "Double-precision libm not covered by the real-number bound.",
           "DESIGN.md §5 C08"),
